@@ -64,7 +64,7 @@ CHECKS = {
          "Sequential: every operation sequence over 4 types x 2 ids x 2 values (plus refused operations) up to the stated depth / fixpoint on inmem, file and store-once, with a full load+list comparison after every transition. Concurrent: all interleavings (no preemption bound) of 2x2 and 3x1 thread programs colliding on one slot, on the real inmem code with sync replaced by scheduler-owned shims; each history must be linearizable w.r.t. the map model.",
          "Scheduling points are lock operations only (sequential consistency between them); data-race freedom is reported by the free-running -race companion, which is sampling. Shim fidelity to sync.RWMutex semantics is part of the trusted base.", "6/C19", "E1+E2+R"),
  "C20": ("exploration", "bounded-exhaustive input enumeration (E4) of the real encoder/decoder",
-         "Every payload length that fits a ClientHello (thorough: all ~57k lengths x 2 prefixes x 2 contents; quick: all chunk-count boundaries), adversarial contents, foreign entries at every position and every malformed entry over a 3-letter alphabet are run through the real BreakIntoNextProtos/CombineFromNextProtos; exhaustive over lengths, which is what the splitter's behaviour depends on.",
+         "Every payload length that fits a ClientHello (thorough: all ~57k lengths x 2 prefixes x 2 contents; quick: all chunk-count boundaries), adversarial contents, foreign entries at every position and every malformed entry over a 5-letter alphabet up to length 4 are run through the real BreakIntoNextProtos/CombineFromNextProtos; exhaustive over lengths, which is what the splitter's behaviour depends on.",
          "Content is enumerated by pattern, not exhaustively; the ClientHello budget is computed (65535-512 bytes of ALPN list).", "6/C20", "E4"),
 }
 PENDING = "check not built yet in this revision of /verif (planned in DESIGN.md section 6); nothing is claimed"
